@@ -76,7 +76,10 @@ def run(R, ctx, pid):
                     res["status"] = "skipped (anchor text no longer present)"
                     results.append(res)
                     continue
-                open(p, "w").write(s.replace(mu["old"], mu["new"], 1))
+                s = s.replace(mu["old"], mu["new"], 1)
+                for o2, n2 in mu.get("more", []):
+                    s = s.replace(o2, n2, 1)
+                open(p, "w").write(s)
             try:
                 viol = _violations(pid, scratch)
             except facts.ExtractionError as e:
